@@ -25,6 +25,9 @@ type ReplayInfo struct {
 	WantResult  string   `json:"want_result,omitempty"`
 	WantArgs    string   `json:"want_args_after,omitempty"`
 	Hooks       []string `json:"hooks,omitempty"` // statements programming the custom function results
+	// Scribble (sharing findings): after the call every piece of mutable memory reachable from the result is
+	// overwritten natively; the finding reproduces iff the arguments change
+	Scribble bool `json:"scribble,omitempty"`
 }
 
 type goBuilder struct {
@@ -655,6 +658,70 @@ func verifDump(ids *verifIDs, sb *strings.Builder, v reflect.Value) {
 	}
 }
 
+// verifScribble overwrites all mutable memory reachable from v.
+func verifScribble(v reflect.Value, seen map[uintptr]bool, depth int) {
+	if depth > 40 {
+		return
+	}
+	switch v.Kind() {
+	case reflect.Ptr:
+		if v.IsNil() || seen[v.Pointer()] {
+			return
+		}
+		seen[v.Pointer()] = true
+		verifScribble(v.Elem(), seen, depth+1)
+	case reflect.Slice:
+		for i := 0; i < v.Len(); i++ {
+			verifScribble(v.Index(i), seen, depth+1)
+		}
+	case reflect.Array:
+		for i := 0; i < v.Len(); i++ {
+			verifScribble(v.Index(i), seen, depth+1)
+		}
+	case reflect.Struct:
+		for i := 0; i < v.NumField(); i++ {
+			if v.Type().Field(i).IsExported() {
+				verifScribble(v.Field(i), seen, depth+1)
+			}
+		}
+	case reflect.Map:
+		if v.IsNil() {
+			return
+		}
+		for _, k := range v.MapKeys() {
+			verifScribble(k, seen, depth+1)
+			verifScribble(v.MapIndex(k), seen, depth+1)
+		}
+		for _, k := range v.MapKeys() {
+			v.SetMapIndex(k, reflect.Value{})
+		}
+	case reflect.Bool:
+		if v.CanSet() {
+			v.SetBool(!v.Bool())
+		}
+	case reflect.Int, reflect.Int8, reflect.Int16, reflect.Int32, reflect.Int64:
+		if v.CanSet() {
+			v.SetInt(v.Int() ^ 1)
+		}
+	case reflect.Uint, reflect.Uint8, reflect.Uint16, reflect.Uint32, reflect.Uint64, reflect.Uintptr:
+		if v.CanSet() {
+			v.SetUint(v.Uint() ^ 1)
+		}
+	case reflect.Float32, reflect.Float64:
+		if v.CanSet() {
+			if v.Float() == 1 {
+				v.SetFloat(2)
+			} else {
+				v.SetFloat(1)
+			}
+		}
+	case reflect.String:
+		if v.CanSet() {
+			v.SetString(v.String() + "~")
+		}
+	}
+}
+
 func verifDumpAll(ids *verifIDs, vals ...any) string {
 	var sb strings.Builder
 	for i, v := range vals {
@@ -735,8 +802,16 @@ func (ri *ReplayInfo) TestSource(cv *Conv, t *Target) string {
 	case 0:
 		fmt.Fprintf(&sb, "\t\t%s\n\t\tfmt.Println(\"VERIF-RESULT\")\n", call)
 	case 1:
+		if ri.Scribble {
+			fmt.Fprintf(&sb, "\t\tidsB := &verifIDs{ptr: map[uintptr]int{}, mp: map[uintptr]int{}}\n\t\tbefore := verifDumpAll(idsB, %s)\n\t\tr0 := %s\n\t\tverifScribble(reflect.ValueOf(&r0).Elem(), map[uintptr]bool{}, 0)\n\t\tidsA := &verifIDs{ptr: map[uintptr]int{}, mp: map[uintptr]int{}}\n\t\tif after := verifDumpAll(idsA, %s); after != before {\n\t\t\tfmt.Println(\"VERIF-SHARED arguments changed when the result was overwritten: \" + before + \" => \" + after)\n\t\t}\n\t\tfmt.Println(\"VERIF-RESULT scribbled\")\n", strings.Join(argPtrs, ", "), call, strings.Join(argPtrs, ", "))
+			break
+		}
 		fmt.Fprintf(&sb, "\t\tr0 := %s\n\t\tfmt.Println(\"VERIF-RESULT \" + verifDumpAll(ids, &r0))\n", call)
 	default:
+		if ri.Scribble {
+			fmt.Fprintf(&sb, "\t\tidsB := &verifIDs{ptr: map[uintptr]int{}, mp: map[uintptr]int{}}\n\t\tbefore := verifDumpAll(idsB, %s)\n\t\tr0, r1 := %s\n\t\t_ = r1\n\t\tverifScribble(reflect.ValueOf(&r0).Elem(), map[uintptr]bool{}, 0)\n\t\tidsA := &verifIDs{ptr: map[uintptr]int{}, mp: map[uintptr]int{}}\n\t\tif after := verifDumpAll(idsA, %s); after != before {\n\t\t\tfmt.Println(\"VERIF-SHARED arguments changed when the result was overwritten: \" + before + \" => \" + after)\n\t\t}\n\t\tfmt.Println(\"VERIF-RESULT scribbled\")\n", strings.Join(argPtrs, ", "), call, strings.Join(argPtrs, ", "))
+			break
+		}
 		fmt.Fprintf(&sb, "\t\tr0, r1 := %s\n\t\tfmt.Println(\"VERIF-RESULT \" + verifDumpAll(ids, &r0, &r1))\n", call)
 	}
 	sb.WriteString("\t}()\n")
@@ -778,6 +853,9 @@ func (d *Driver) Replay(f *Finding, dir string) (string, string) {
 	if err != nil {
 		return "unsupported: " + err.Error(), ""
 	}
+	if f.Kind == "sharing" && !f.Replay.WantPanic {
+		f.Replay.Scribble = true
+	}
 	src := f.Replay.TestSource(cv, t)
 	testFile := filepath.Join(d.C.Dir, cv.Group, "zz_verif_replay_test.go")
 	if err := os.WriteFile(testFile, []byte(src), 0o644); err != nil {
@@ -818,6 +896,12 @@ func (d *Driver) Replay(f *Finding, dir string) (string, string) {
 	}
 	detail := fmt.Sprintf("engine: panic=%v result=%s args=%s\nnative: panic=%v result=%s args=%s", f.Replay.WantPanic, f.Replay.WantResult, f.Replay.WantArgs, gotPanic, gotResult, gotArgs)
 	os.WriteFile(filepath.Join(dir, "replay.cmp"), []byte(detail), 0o644)
+	if f.Replay.Scribble {
+		if strings.Contains(output, "VERIF-SHARED") {
+			return "reproduced", detail + "\n(native mutation of the result changed the arguments)"
+		}
+		return "not-reproduced", detail
+	}
 	if f.Replay.WantPanic {
 		if gotPanic {
 			return "reproduced", detail
